@@ -100,6 +100,12 @@ Proof.
   destruct g as [[[a b] v]| | | |]; simpl; auto.
   destruct (db_row (db e) id) as [[ix v]|]; simpl; (eapply same_cl_trans; [exact S|]); apply same_cl_swe.
 Qed.
+Lemma same_cl_take_pk_dberr e n id : same_cl n (snd (fst (take_pk_dberr e n id))).
+Proof.
+  unfold take_pk_dberr. pose proof (same_cl_do_get dec_row n (PK id)) as S.
+  destruct (do_get dec_row n (PK id)) as [n1 g]. simpl in S.
+  destruct g as [[[a b] v]| | | |]; simpl; auto.
+Qed.
 Lemma same_cl_qri c f1 f2 e n i : same_cl n (snd (fst (query_row_index c f1 f2 e n i))).
 Proof.
   unfold query_row_index. pose proof (same_cl_do_get dec_pk n (IX i)) as S.
@@ -301,7 +307,7 @@ Qed.
 Lemma JF_step c s o : JF (snd s) [] -> JF (snd (step_st c s o)) [].
 Proof.
   destruct s as [e n]. unfold step_st. simpl. intro H.
-  destruct o as [id f|i f1 f2|w ks|ks|k v f|dt| |g s0 d|k g ttl|kc]; simpl.
+  destruct o as [id f|i f1 f2|w ks|ks|k v f|dt| |g s0 d|k g ttl|kc|ide]; simpl.
   - eapply same_cl_JF; [apply same_cl_take_pk|]. exact H.
   - eapply same_cl_JF; [apply same_cl_qri|]. exact H.
   - unfold exec. destruct (apply_write w (db e)); simpl; [apply JF_del_ctx|]; assumption.
@@ -313,6 +319,7 @@ Proof.
   - eapply same_cl_JF; [|exact H]. repeat split.
   - eapply same_cl_JF; [|exact H]. repeat split.
   - exact H.
+  - eapply same_cl_JF; [apply same_cl_take_pk_dberr|]. exact H.
 Qed.
 
 Lemma JF_run c ops : forall s, JF (snd s) [] -> JF (snd (run c ops s)) [].
